@@ -176,6 +176,17 @@ theorem layout_one_call_per_cluster (cols : Int) (l : List Item) (col row : Int)
       (l.filter (fun it => !it.brk && decide (it.w ≤ cols))).map Item.cell :=
   layout_cells cols l col row hcol hw
 
+/-- The same for the word-wrapping layout (`Wrap`): whatever rows the word wrapping chooses, the cells
+written are, in text order, exactly the clusters of the line segments that are neither line breaks
+nor wider than the window — each once, none split, none merged.  (That the line segments' clusters
+are the clusters of the text is the harness-side oracle of the F111c repair: the segmentation is a
+parameter of the model.) -/
+theorem wrap_one_call_per_cluster (cols : Int) (L : List (List Item)) (col row : Int) (hcol : 0 ≤ col)
+    (hw : ∀ seg ∈ L, ∀ it ∈ seg, 0 ≤ it.w) :
+    (layoutWrap cols L col row).1.map (·.cell) =
+      (L.flatten.filter (fun it => !it.brk && decide (it.w ≤ cols))).map Item.cell :=
+  layoutWrap_cells cols L col row hcol hw
+
 /-- The pen rule itself: a break starts a new row; a cluster that is wider than the window is not
 written; otherwise the cluster is written at the pen — or at the start of the next row when it does
 not fit in the rest of this one — the column advances by its width, and a new row starts when the
